@@ -77,11 +77,11 @@ theorem last_mem (body : Text) (hne : body ≠ []) : ∃ c, body.getLast? = some
   refine ⟨body.getLast hne, List.getLast?_eq_some_getLast hne, List.getLast_mem hne⟩
 
 /-- `#.` / `#,` + one blank + a body that does not end in white space: up to `process` -/
-theorem hashk_step (k : Char) (sym : Sym) (hk : (k = '.' ∧ sym = .gc) ∨ (k = ',' ∧ sym = .fl)) (ws : Char) (hws : blankChar ws)
+theorem hashk_step (k : Char) (sym : Sym) (hk : (k = '.' ∧ sym = .gc) ∨ (k = ',' ∧ sym = .fl) ∨ (k = ':' ∧ sym = .oc)) (ws : Char) (hws : blankChar ws)
     (body rpad : Text) (hne : body ≠ []) (hlast : endsNonSpace body) (hr : allSpace rpad) (n : Nat) (s : PState) :
     stepLine env enc n ('#' :: k :: ws :: (body ++ rpad)) s =
       process env enc n sym ('#' :: k :: ws :: body) { s with entryObsolete := false, lastTok := some ['#', k] } := by
-  have hksp : pyIsSpace k = false := by rcases hk with ⟨rfl, _⟩ | ⟨rfl, _⟩ <;> decide
+  have hksp : pyIsSpace k = false := by rcases hk with ⟨rfl, _⟩ | ⟨rfl, _⟩ | ⟨rfl, _⟩ <;> decide
   have hwsp : pyIsSpace ws = true := by rcases hws with rfl | rfl <;> decide
   obtain ⟨cl, hcl, hclm⟩ := last_mem body hne
   have hsplit : splitWs pyIsSpace 2 ('#' :: k :: ws :: body) = ['#', k] :: splitWs pyIsSpace 1 (ws :: body) := by
@@ -96,10 +96,10 @@ theorem hashk_step (k : Char) (sym : Sym) (hk : (k = '.' ∧ sym = .gc) ∨ (k =
   have hstep := stepLine_plain env hsp enc n [] ('#' :: k :: ws :: body) rpad (by simp) hr (by simp)
     (by intro c r e; simp at e; rw [← e.1]; decide) hcl'
     (by intro c r e; simp at e; rw [← e.1]; decide) ['#', k] (t1 :: tr) (by rw [hsplit, htrc])
-    (by rcases hk with ⟨rfl, _⟩ | ⟨rfl, _⟩ <;> decide) (by rcases hk with ⟨rfl, _⟩ | ⟨rfl, _⟩ <;> decide) s
+    (by rcases hk with ⟨rfl, _⟩ | ⟨rfl, _⟩ | ⟨rfl, _⟩ <;> decide) (by rcases hk with ⟨rfl, _⟩ | ⟨rfl, _⟩ | ⟨rfl, _⟩ <;> decide) s
   have hline : '#' :: k :: ws :: (body ++ rpad) = [] ++ ('#' :: k :: ws :: body) ++ rpad := by simp
   rw [hline, hstep]
-  rcases hk with ⟨rfl, rfl⟩ | ⟨rfl, rfl⟩ <;> simp [dispatch, lookupKw, I18n.Generated.PolibFsm.keywords, startsWith]
+  rcases hk with ⟨rfl, rfl⟩ | ⟨rfl, rfl⟩ | ⟨rfl, rfl⟩ <;> simp [dispatch, lookupKw, I18n.Generated.PolibFsm.keywords, startsWith]
 
 /-- `#. text` -/
 theorem gc_step (ws : Char) (hws : blankChar ws) (text rpad : Text) (hne : text ≠ []) (ht : endsNonSpace text) (hr : allSpace rpad)
@@ -142,8 +142,166 @@ theorem fl_step (ws : Char) (hws : blankChar ws) (ps : List FlagPiece) (rpad : T
     simp only [handle, hfl, List.drop_succ_cons, List.drop_zero, hsp, h1, h2]
   refine ⟨{ entries := es, header := s.header, cur := { c with flags := c.flags ++ ps.map FlagPiece.item, linenum := ln },
               state := .fl, msgstrIndex := s.msgstrIndex, entryObsolete := false, lastTok := some ['#', ','] }, ln, ?_, ⟨rfl, rfl, rfl, rfl, rfl⟩⟩
-  rw [hashk_step env hsp enc ',' .fl (Or.inr ⟨rfl, rfl⟩) ws hws (flagBody ps) rpad hne ht hr n s,
+  rw [hashk_step env hsp enc ',' .fl (Or.inr (Or.inl ⟨rfl, rfl⟩)) ws hws (flagBody ps) rpad hne ht hr n s,
     process_of env enc n .fl .fl _ { s with entryObsolete := false, lastTok := some ['#', ','] } _ true htr hh]
+  rfl
+
+/-! ### `#:` lines -/
+
+omit hsp in
+theorem digit_facts : ∀ d : Fin 10, pyIsDigit (digitChar d.val) = true ∧ digitChar d.val ≠ ':' ∧ pyIsSpace (digitChar d.val) = false := by decide
+
+omit hsp in
+theorem rsplit1_colon (file ds : Text) (hds : ':' ∉ ds) : rsplit1 ':' (file ++ ':' :: ds) = some (file, ds) := by
+  have hrev : (file ++ ':' :: ds).reverse = ds.reverse ++ ':' :: file.reverse := by simp
+  have htw : ((file ++ ':' :: ds).reverse.takeWhile fun c => c != ':') = ds.reverse := by
+    rw [hrev]
+    have := takeWhile_tok (p := fun c => c == ':') ds.reverse (':' :: file.reverse)
+      (by intro c hc; simp at hc; simp; intro e; exact hds (e ▸ hc)) (by intro c r e; simp at e; simp [← e.1])
+    have hfun : (fun c : Char => c != ':') = (fun c => !(c == ':')) := rfl
+    rw [hfun]; exact this.1
+  unfold rsplit1
+  simp only [htw, List.reverse_reverse]
+  have hlen : ¬ ds.length = (file ++ ':' :: ds).length := by simp; omega
+  rw [if_neg hlen]
+  have : (file ++ ':' :: ds).length - ds.length - 1 = file.length := by simp; omega
+  rw [this]; simp
+
+omit hsp in
+theorem rsplit1_none (name : Text) (h : ':' ∉ name) : rsplit1 ':' name = none := by
+  have htw : (name.reverse.takeWhile fun c => c != ':') = name.reverse := by
+    have := takeWhile_tok (p := fun c => c == ':') name.reverse []
+      (by intro c hc; simp at hc; simp; intro e; exact h (e ▸ hc)) (by intro c r e; simp at e)
+    have hfun : (fun c : Char => c != ':') = (fun c => !(c == ':')) := rfl
+    rw [hfun]; simpa using this.1
+  unfold rsplit1
+  simp [htw]
+
+omit hsp in
+theorem occurrence_item (hdig : env.isDigit = pyIsDigit) (r : RefItem) (hr : r.Valid) : occurrence env r.token = r.pair := by
+  cases r with
+  | withLine file line =>
+    have hds : ':' ∉ line.map fun d => digitChar d.val := by
+      intro hm; simp only [List.mem_map] at hm; obtain ⟨d, _, hd⟩ := hm; exact (digit_facts d).2.1 hd
+    have hall : allIn pyIsDigit (line.map fun d => digitChar d.val) = true := by
+      have hne : (line.map fun d => digitChar d.val) ≠ [] := by simpa using hr.1
+      simp only [allIn, Bool.and_eq_true, Bool.not_eq_true', List.all_eq_true, List.mem_map]
+      refine ⟨by cases h : (line.map fun d => digitChar d.val) <;> simp_all, ?_⟩
+      rintro c ⟨d, _, rfl⟩; exact (digit_facts d).1
+    simp [occurrence, RefItem.token, RefItem.pair, rsplit1_colon file _ hds, hdig, hall]
+  | noLine name => simp [occurrence, RefItem.token, RefItem.pair, rsplit1_none name hr.2.1]
+
+omit hsp in
+theorem token_facts (r : RefItem) (hr : r.Valid) : r.token ≠ [] ∧ ∀ c ∈ r.token, pyIsSpace c = false := by
+  cases r with
+  | withLine file line =>
+    refine ⟨by simp [RefItem.token], ?_⟩
+    intro c hc
+    simp only [RefItem.token, List.mem_append, List.mem_cons, List.mem_map] at hc
+    rcases hc with hc | rfl | ⟨d, _, rfl⟩
+    · exact hr.2 c hc
+    · decide
+    · exact (digit_facts d).2.2
+  | noLine name => exact ⟨hr.1, hr.2.2⟩
+
+omit hsp in
+theorem splitWs_refs (items : List (Text × RefItem)) (first : Bool) (hv : refsValid first items) (n : Nat) (hn : items.length ≤ n) :
+    splitWs pyIsSpace n (refsBody items) = items.map fun x => x.2.token := by
+  induction items generalizing first n with
+  | nil => cases n <;> simp [refsBody, splitWs]
+  | cons x rest ih =>
+    obtain ⟨sep, r⟩ := x
+    obtain ⟨hbl, hfirst, hr, hrest⟩ := hv
+    obtain ⟨htne, htns⟩ := token_facts r hr
+    cases n with
+    | zero => simp at hn
+    | succ m =>
+      have hrest_head : ∀ c t, refsBody rest = c :: t → pyIsSpace c = true := by
+        intro c t e
+        cases rest with
+        | nil => simp [refsBody] at e
+        | cons y ys =>
+          obtain ⟨sep', r'⟩ := y
+          obtain ⟨hbl', hf', _, _⟩ := hrest
+          obtain ⟨b, bs, hb⟩ := List.exists_cons_of_ne_nil (hf' rfl)
+          rw [hb] at e
+          simp [refsBody] at e
+          rw [← e.1]; exact blank_space sep' hbl' b (by rw [hb]; simp)
+      simp only [refsBody, List.append_assoc]
+      rw [splitWs_pad (m + 1) sep _ (blank_space sep hbl), splitWs_tok m r.token (refsBody rest) htne htns hrest_head,
+        ih false hrest m (by simpa using hn)]
+      simp
+
+omit hsp in
+theorem refsBody_facts (items : List (Text × RefItem)) (first : Bool) (hne : items ≠ []) (hv : refsValid first items) :
+    refsBody items ≠ [] ∧ endsNonSpace (refsBody items) := by
+  induction items generalizing first with
+  | nil => exact absurd rfl hne
+  | cons x rest ih =>
+    obtain ⟨sep, r⟩ := x
+    obtain ⟨hbl, hfirst, hr, hrest⟩ := hv
+    obtain ⟨htne, htns⟩ := token_facts r hr
+    obtain ⟨a, as, ha⟩ := List.exists_cons_of_ne_nil htne
+    refine ⟨by simp [refsBody, ha], ?_⟩
+    cases rest with
+    | nil =>
+      simp only [refsBody, List.append_nil]
+      intro c e
+      rw [List.getLast?_append] at e
+      obtain ⟨cl, hcl, hclm⟩ := last_mem r.token htne
+      rw [hcl] at e; simp at e; rw [← e]; exact htns cl hclm
+    | cons y ys =>
+      obtain ⟨h1, h2⟩ := ih false (by simp) hrest
+      rw [show refsBody ((sep, r) :: y :: ys) = (sep ++ r.token) ++ refsBody (y :: ys) from rfl]
+      intro c e
+      rw [List.getLast?_append] at e
+      cases hb : (refsBody (y :: ys)).getLast? with
+      | none => simp [List.getLast?_eq_none_iff] at hb; exact absurd hb h1
+      | some cl => rw [hb] at e; simp at e; rw [← e]; exact h2 cl hb
+
+omit hsp in
+theorem refs_len (items : List (Text × RefItem)) (first : Bool) (hv : refsValid first items) : items.length ≤ (refsBody items).length := by
+  induction items generalizing first with
+  | nil => simp
+  | cons x rest ih =>
+    obtain ⟨sep, r⟩ := x
+    obtain ⟨_, _, hr', hrest⟩ := hv
+    have := List.length_pos_iff.mpr (token_facts r hr').1
+    have h2 := ih false hrest
+    simp only [refsBody, List.length_append, List.length_cons] at h2 ⊢
+    omega
+
+omit hsp in
+theorem refs_occ (hdig : env.isDigit = pyIsDigit) (items : List (Text × RefItem)) (first : Bool) (hv : refsValid first items) :
+    (items.map fun x => x.2.token).map (occurrence env) = items.map fun x => x.2.pair := by
+  induction items generalizing first with
+  | nil => rfl
+  | cons x rest ih =>
+    obtain ⟨sep, r⟩ := x
+    obtain ⟨_, _, hr', hrest⟩ := hv
+    simp only [List.map_cons, occurrence_item env hdig r hr', ih false hrest]
+
+/-- `#: a.c:1 b.c:2` -/
+theorem oc_step (hdig : env.isDigit = pyIsDigit) (ws : Char) (hws : blankChar ws) (items : List (Text × RefItem)) (rpad : Text)
+    (hne : items ≠ []) (hv : refsValid true items) (hr : allSpace rpad)
+    (n : Nat) (s : PState) (es : List Entry) (c : Entry) (hrdy : Ready s es c) (htr : transition .oc s.state = some .oc) :
+    ∃ s1 ln, stepLine env enc n ('#' :: ':' :: ws :: (refsBody items ++ rpad)) s = .ok s1 ∧
+      Same s1 (mk es s.header { c with occurrences := c.occurrences ++ items.map (fun x => x.2.pair), linenum := ln } .oc s.msgstrIndex) := by
+  obtain ⟨ln, hfl⟩ := ready_flush hrdy n false (some ['#', ':'])
+  obtain ⟨hb1, hb2⟩ := refsBody_facts items true hne hv
+  have hsplit : splitAllWs pyIsSpace (refsBody items) = items.map fun x => x.2.token :=
+    splitWs_refs items true hv _ (refs_len items true hv)
+  have hocc := refs_occ env hdig items true hv
+  have hh : handle env enc n .oc ('#' :: ':' :: ws :: refsBody items) { s with entryObsolete := false, lastTok := some ['#', ':'] } =
+      some ({ entries := es, header := s.header,
+              cur := { c with occurrences := c.occurrences ++ items.map (fun x => x.2.pair), linenum := ln },
+              state := s.state, msgstrIndex := s.msgstrIndex, entryObsolete := false, lastTok := some ['#', ':'] }, true) := by
+    simp only [handle, hfl, List.drop_succ_cons, List.drop_zero, hsp, hsplit, hocc]
+  refine ⟨{ entries := es, header := s.header,
+            cur := { c with occurrences := c.occurrences ++ items.map (fun x => x.2.pair), linenum := ln },
+            state := .oc, msgstrIndex := s.msgstrIndex, entryObsolete := false, lastTok := some ['#', ':'] }, ln, ?_, ⟨rfl, rfl, rfl, rfl, rfl⟩⟩
+  rw [hashk_step env hsp enc ':' .oc (Or.inr (Or.inr ⟨rfl, rfl⟩)) ws hws (refsBody items) rpad hb1 hb2 hr n s,
+    process_of env enc n .oc .oc _ { s with entryObsolete := false, lastTok := some ['#', ':'] } _ true htr hh]
   rfl
 
 include hE
@@ -277,14 +435,14 @@ theorem ready_same {a b : PState} (h : Same a b) {es : List Entry} {c : Entry} (
 
 omit hsp hE in
 theorem trans_all (st : St) : transition .gc st = some .gc ∧ transition .fl st = some .fl ∧
-    transition .pc st = some .pc ∧ transition .pm st = some .pm ∧ transition .pp st = some .pp := by
-  cases st <;> exact ⟨rfl, rfl, rfl, rfl, rfl⟩
+    transition .pc st = some .pc ∧ transition .pm st = some .pm ∧ transition .pp st = some .pp ∧ transition .oc st = some .oc := by
+  cases st <;> exact ⟨rfl, rfl, rfl, rfl, rfl, rfl⟩
 
 /-- what the message lines need from the state the comment lines leave -/
 def MsgReady (st : St) : Prop := transition .ct st = some .ct ∧ transition .mi st = some .mi
 
 /-- the comment lines of an entry -/
-theorem comment_phase (cls : List CommentSp) (hv : ∀ cl ∈ cls, cl.Valid E) (n : Nat) (s : PState) (es : List Entry) (c : Entry)
+theorem comment_phase (hdig : env.isDigit = pyIsDigit) (cls : List CommentSp) (hv : ∀ cl ∈ cls, cl.Valid E) (n : Nat) (s : PState) (es : List Entry) (c : Entry)
     (hrdy : Ready s es c) (hmr : MsgReady s.state)
     (htc : transition .tc s.state = some .tc ∨ ∀ cl ∈ cls, cl.isTc = false)
     (hfl : ∀ f ∈ c.flags, FlagItem pyIsSpace f) :
@@ -343,10 +501,14 @@ theorem comment_phase (cls : List CommentSp) (hv : ∀ cl ∈ cls, cl.Valid E) (
         rcases hf with hf | ⟨x, hx, rfl⟩
         · exact hfl f hf
         · exact (hpv x hx).1)
+    | refs ws items rpad =>
+      obtain ⟨hws, hne, hiv, hr⟩ := hv (.refs ws items rpad) (by simp)
+      obtain ⟨s1, ln, h1, hs1⟩ := oc_step env hsp enc hdig ws hws items rpad hne hiv hr (n + 1) s es c hrdy hall.2.2.2.2.2
+      exact next s1 ln .oc _ (by simp [CommentSp.lines, parseLoop, h1]) hs1 rfl (by simp) ⟨rfl, rfl⟩ rfl hfl
     | previous kind psep x =>
       obtain ⟨hpsep, hpbl, hx⟩ := hv (.previous kind psep x) (by simp)
       obtain ⟨s1, ln, h1, hs1⟩ := prev_step E env hsp enc hE kind psep hpsep hpbl x hx n s es c hrdy
-        (by cases kind <;> simp [prevSym, prevHandler, hall.2.2.1, hall.2.2.2.1, hall.2.2.2.2])
+        (by cases kind <;> simp [prevSym, prevHandler, hall.2.2.1, hall.2.2.2.1, hall.2.2.2.2.1])
       exact next s1 ln (prevFld kind).st _ (by simpa [CommentSp.lines] using h1) hs1 rfl (by cases kind <;> simp [prevFld, Fld.st])
         (by cases kind <;> exact ⟨rfl, rfl⟩) (by cases kind <;> rfl) (by cases kind <;> simpa [CommentSp.apply] using hfl)
 
@@ -375,7 +537,7 @@ theorem apply_linenum (cls : List CommentSp) (c : Entry) : (cls.foldl CommentSp.
     | _ => rfl
 
 /-- entry after entry, comments included -/
-theorem entries_loop (hdec : env.decimal = pyDecimal) (es : List EntrySp) (hv : ∀ e ∈ es, e.Valid E) (n : Nat) (s : PState)
+theorem entries_loop (hdig : env.isDigit = pyIsDigit) (hdec : env.decimal = pyDecimal) (es : List EntrySp) (hv : ∀ e ∈ es, e.Valid E) (n : Nat) (s : PState)
     (hs : Done s ∨ Fresh s)
     (hfirst : Fresh s → ∀ e, es.head? = some e → ∀ cl ∈ e.comments, cl.isTc = false) :
     ∃ s', parseLoop env enc n (es.flatMap EntrySp.lines) s = .ok s' ∧
@@ -391,7 +553,7 @@ theorem entries_loop (hdec : env.decimal = pyDecimal) (es : List EntrySp) (hv : 
       rcases hs with h | h
       · left; rcases h with h | h <;> rw [h] <;> rfl
       · right; exact hfirst h e rfl
-    obtain ⟨s0, h0, r0, e0, m0⟩ := comment_phase E env hsp enc hE e.comments hve.1 n s (pending s) {} hr ⟨ht1, ht2⟩ htc (by simp)
+    obtain ⟨s0, h0, r0, e0, m0⟩ := comment_phase E env hsp enc hE hdig e.comments hve.1 n s (pending s) {} hr ⟨ht1, ht2⟩ htc (by simp)
     obtain ⟨s1, ln, h1, e1, e2, e3, e4, e5⟩ := msg_phase E env hsp hdec enc hE e.msg hve.2
       (n + (e.comments.flatMap CommentSp.lines).length) s0 (pending s) _ r0 (apply_keeps e.comments {} ⟨rfl, rfl, rfl, rfl⟩) m0
     obtain ⟨s2, h2, hrest⟩ := ih (fun x hx => hv x (by simp [hx])) (n + e.lines.length) s1 (Or.inl e4)
@@ -478,7 +640,7 @@ theorem header_loop (hs : List HeaderLine) (hv : ∀ h ∈ hs, h.Valid) (n : Nat
     · rw [d2, hs1.2.1]; rfl
 
 /-- **the catalog theorem at the level of polib's line loop** -/
-theorem parse_catalog (hdec : env.decimal = pyDecimal) (cat : CatalogSp) (hv : cat.Valid E) :
+theorem parse_catalog (hdig : env.isDigit = pyIsDigit) (hdec : env.decimal = pyDecimal) (cat : CatalogSp) (hv : cat.Valid E) :
     ∃ f, parseLines env enc cat.lines = .ok f ∧ f.header = cat.headerText ∧
       f.entries.map content = cat.entries.map EntrySp.entry := by
   obtain ⟨hA, hH, hB, hEs, hne, hfirst, hlast⟩ := hv
@@ -488,7 +650,7 @@ theorem parse_catalog (hdec : env.decimal = pyDecimal) (cat : CatalogSp) (hv : c
   obtain ⟨s2, h2, hs2⟩ := noise_loop env hsp enc cat.noiseB hB
     (0 + (cat.noiseA.map Noise.render).length + (cat.header.map HeaderLine.render).length) s1
   have hf2 : Fresh s2 := ⟨by rw [← hs2.2.2.2.1]; exact hf1.1, by rw [← hs2.2.2.1]; exact hf1.2⟩
-  obtain ⟨s3, h3, hrest⟩ := entries_loop E env hsp enc hE hdec cat.entries hEs
+  obtain ⟨s3, h3, hrest⟩ := entries_loop E env hsp enc hE hdig hdec cat.entries hEs
     (0 + (cat.noiseA.map Noise.render).length + (cat.header.map HeaderLine.render).length + (cat.noiseB.map Noise.render).length)
     s2 (Or.inr hf2) (fun _ => hfirst)
   obtain ⟨d3a, d3b, d3c, d3d⟩ := hrest hne
